@@ -30,7 +30,7 @@ def inj_part(ck, tier, rng):
 def main(tier, seed):
     return sprops.main_S(PID, tier, seed, {81}, "Props.C03",
                          ["Model/Sim.v", "Oracle/SimCheck.v", "Oracle/SimOracle.v", "Model/Wiring.v", "Model/Ticker.v", "Model/Component.v", "Proofs/WiringP.v", "Proofs/TickerP.v", "Proofs/SimP.v", "Proofs/FlattenP.v", "Proofs/NonInterfP.v", "Proofs/LatestP.v", "Model/SimTime.v", "Model/Inline.v", "Proofs/EqvP.v", "Proofs/WakeWfP.v", "Proofs/InlineP.v", "Proofs/InlineLoopP.v", "Proofs/InlineScopeP.v", "Proofs/InlineLatestP.v", "Proofs/FrameP.v", "Proofs/ExtentP.v", "Proofs/EqvCongP.v", "Proofs/ParDevP.v", "Proofs/AgreeP.v", "Proofs/FuelP.v", "Proofs/InlineAllP.v", "Proofs/InlineAllLatestP.v",
-                          "Model/NSim.v", "Model/NNSim.v", "Proofs/Confluence3P.v", "Proofs/NScheduleP.v", "Proofs/NDetP.v", "Proofs/NDetScopeP.v", "Proofs/SimNTP.v", "Props/C03.v"],
+                          "Model/NSim.v", "Model/NNSim.v", "Proofs/Confluence3P.v", "Proofs/NScheduleP.v", "Proofs/NDetP.v", "Proofs/NDetScopeP.v", "Proofs/SimNTP.v", "Model/PyLib.v", "Gen/SourceFuns.v", "Proofs/GenDeviceInputsP.v", "Props/C03.v"],
                          "values along the wiring", "nested", extra=inj_part)
 
 
